@@ -674,3 +674,33 @@ def run(tier, seed, replay=None):
             r.is_broken("search-run", e)
         r.phase("P6_search", cases=len(extra))
     return r.finish()
+
+MANIFEST = {
+    "category": "proof",
+    "text": ("Coq theorems (no axioms) over an executable model of ObservationService::observe / observe_optic as a pure function of the "
+             "recorded provenance (per worldline: entries with commit cycle, state root, commit id, recorded outputs; genesis snapshot; "
+             "strand registration; checkpoints), the global tick and the installed query observers: a reading depends only on the named "
+             "worldline's record (other worldlines, live state and later global ticks cannot influence it beyond the documented freshness "
+             "field); a historical read `Tick t` is unchanged by any later commits/forks; it equals the projection of the state obtained by "
+             "checked replay at that coordinate; ticks beyond history, unknown worldlines and recorded truth of an uncommitted worldline are "
+             "typed obstructions and never readings; the frame/projection validity matrix is exactly the four pairs; frontier readings show "
+             "the last recorded commit; truth payloads are the filtered recorded outputs in recorded order; optic readings are exactly the "
+             "bridged commit-boundary observation and optics on unavailable ticks are obstructed. Tie: real multi-worldline histories "
+             "(WorldlineRuntime + SchedulerCoordinator::super_tick + fork_strand + checkpoints, recorded outputs re-recorded through the public "
+             "provenance API) are read with every request shape at several read rounds, before and after further commits and forks; model and "
+             "implementation must agree on obstruction kind, resolved coordinate, envelope, payload and on the artifact hash (the model emits "
+             "the domain-separated canonical-CBOR preimage, hashed with real blake3). Oracles on the implementation alone: canonical "
+             "fingerprints of runtime, provenance and engine (including the RefCell materialization bus and the Cell scan counter) are equal "
+             "around every read; a repeated request gives an identical artifact; every reading equals the projection of "
+             "ProvenanceService::replay_worldline_state_at at its coordinate and is unchanged at later rounds modulo the freshness field; the "
+             "artifact hash is the hash of its parts; unavailable history never yields a reading."),
+    "note": ("Trusted: Coq kernel + vm_compute; python generator/renderer; harness c16.rs (abstraction provenance -> model world); blake3 "
+             "crate. Read-only-ness is NOT a theorem (vacuous for a Gallina function): it is the fingerprint oracle. Modelled rather than "
+             "verified: observation.rs validation/resolve/posture/witness/budget/hash-input shape and the canonical CBOR encoder as Gallina "
+             "functions; the live frontier is derived from the recorded history (the harness checks that invariant). Inputs of the model, not "
+             "modelled: Strand::live_basis_report classification, graph state/patch application (Section variables). Oracle only: contract "
+             "query observer payload / query identity / retained evidence (model stops at validation + resolved coordinate), optic "
+             "ReadIdentity and witness-basis contents. Outside: warp-wasm kernel boundary (thin adapter over the same service; the ABI DTO "
+             "conversion is exercised through ObservationArtifact::to_abi), neighborhood/settlement observation, retained reading cache. "
+             "Tick numbering follows the documented convention (`Tick t` = state after commit t; frontier resolved tick = number of commits)."),
+}
